@@ -76,6 +76,27 @@ const (
 // matches function calls like "fn(arg1, arg2)" or just "fn"
 var filterRe = regexp.MustCompile(`^(\w+)(?:\((.*?)\))?$`)
 
+// matchCall matches "name" or "name(args)" like filterRe, where the parenthesis that follows the
+// name closes at the end: double(n)+double(m) is not a call of double with "n)+double(m".
+func matchCall(s string) []string {
+	matches := filterRe.FindStringSubmatch(s)
+	if matches == nil {
+		return nil
+	}
+	masked, depth := helpers.MaskQuoted(s), 0
+	for i := 0; i < len(masked); i++ {
+		switch masked[i] {
+		case '(':
+			depth++
+		case ')':
+			if depth--; depth == 0 && i != len(masked)-1 {
+				return nil
+			}
+		}
+	}
+	return matches
+}
+
 // parsePipeExpr parses "item | double | . > 5" into segments, auto-detecting expressions vs filters
 func parsePipeExpr(expr string) pipeExpr {
 	// Check if this is a complex expression (contains operators like ||, &&, etc.)
@@ -103,7 +124,7 @@ func parsePipeExpr(expr string) pipeExpr {
 	masked := helpers.MaskQuoted(expr)
 	if !strings.Contains(masked, "|") {
 		// Check if it's a function call (including no-arg functions like "fn()")
-		if matches := filterRe.FindStringSubmatch(trimmed); matches != nil && matches[1] != "" {
+		if matches := matchCall(trimmed); matches != nil && matches[1] != "" {
 			return pipeExpr{
 				initial: "",
 				segments: []pipeSegment{{
@@ -222,7 +243,7 @@ func classifySegment(part string) pipeSegment {
 	}
 
 	// Try to match as function call
-	if matches := filterRe.FindStringSubmatch(part); matches != nil {
+	if matches := matchCall(part); matches != nil {
 		name := matches[1]
 		if helpers.IsIdentifier(name) {
 			args := []string{}
